@@ -36,6 +36,10 @@ BOUNDARY = {
     "num_samples_data_point": [0, 1, 2],
     "num_samples_prune_regraph": [0, 1, 2],
     "clustered": [False, False, True],
+    "print_freq": [1, 7, 100],
+    "loss_mode": ["none", "none", "assign", "assign+chrom", "user"],
+    "low_loss_prob": [1e-4, 0.01],
+    "high_loss_prob": [0.4, 1.0],
 }
 INJECT = [0.0, 5e-324, 1e-300, 1e-200, 1e3]
 
@@ -55,6 +59,15 @@ def sample_config(rng, idx):
                    num_iters=max(cfg["num_iters"], 4), num_samples_data_point=max(cfg["num_samples_data_point"], 1))
         if cfg["outlier_prob"] == 1.0:
             cfg["outlier_prob"] = 1e-4
+        if cfg["loss_mode"] not in ("none", "assign"):
+            cfg["loss_mode"] = "assign"
+    if not cfg["clustered"]:
+        cfg["loss_mode"] = "none"
+    # sizes beyond one byte on the axes where that is cheap: iterations, particles
+    if idx % 40 == 11:
+        cfg.update(n=min(cfg["n"], 2), num_iters=300, max_time=float("inf"), num_particles=min(cfg["num_particles"], 2))
+    if idx % 40 == 23:
+        cfg.update(n=min(cfg["n"], 3), num_particles=300, num_iters=min(cfg["num_iters"], 2), heavy=False)
     cfg["inject"] = None
     if cfg["concentration_update"] and cfg["outlier_prob"] > 0 and idx % 3 == 0:
         cfg["inject"] = {"value": INJECT[(idx // 3) % len(INJECT)], "every": 1 + (idx // 15) % 2}
@@ -146,7 +159,12 @@ def run_task(task):
                 cluster_file = os.path.join(tmpdir, "cl_%d.tsv" % idx)
                 inputs.write_table(crow, cluster_file)
             elif cfg["clustered"]:
-                crow, _assign = inputs.make_clusters(rng, rows, cfg["n"])
+                if cfg["loss_mode"] == "assign+chrom":
+                    for r in rows:
+                        r["chrom"] = "chr%d" % (1 + sum(map(ord, str(r["mutation_id"]))) % 22)
+                    inputs.write_table(rows, in_file)
+                crow, _assign = inputs.make_clusters(rng, rows, cfg["n"], outlier_prob_col=[0.0, 0.05, 0.5, 1e-4]
+                                                     if cfg["loss_mode"] == "user" else None)
                 cluster_file = os.path.join(tmpdir, "cl_%d.tsv" % idx)
                 inputs.write_table(crow, cluster_file)
             out_file = os.path.join(tmpdir, "out_%d.pkl.gz" % idx)
@@ -187,7 +205,9 @@ def run_task(task):
                 density=cfg["density"], grid_size=cfg["grid_size"], max_time=cfg["max_time"], num_iters=cfg["num_iters"],
                 num_particles=cfg["num_particles"], num_samples_data_point=cfg["num_samples_data_point"],
                 num_samples_prune_regraph=cfg["num_samples_prune_regraph"], outlier_prob=cfg["outlier_prob"],
-                precision=cfg["precision"], print_freq=100, proposal=cfg["proposal"],
+                precision=cfg["precision"], print_freq=cfg["print_freq"], proposal=cfg["proposal"],
+                assign_loss_prob=cfg["loss_mode"].startswith("assign"), user_provided_loss_prob=cfg["loss_mode"] == "user",
+                low_loss_prob=cfg["low_loss_prob"], high_loss_prob=cfg["high_loss_prob"],
                 resample_threshold=cfg["resample_threshold"], seed=cfg["seed"], thin=cfg["thin"], num_chains=1,
                 subtree_update_prob=cfg["subtree_update_prob"],
             )
